@@ -206,12 +206,7 @@ func EnforceScenario(seed int64, k int, res *l2.Result) {
 		if w.Net.TotalConns(p.Addr) == 0 {
 			return false
 		}
-		select {
-		case <-p.Ready:
-			return true
-		default:
-		}
-		return w.Net.OpenConns(p.Addr) == 0
+		return p.IsReady() || w.Net.OpenConns(p.Addr) == 0
 	}
 	if plan.Hold {
 		var released atomic.Bool
@@ -268,6 +263,23 @@ func EnforceScenario(seed int64, k int, res *l2.Result) {
 				}
 			}
 			return false
+		}
+	}
+
+	if x.giveUp == nil {
+		// With every honest peer banned the client cannot reach the honest
+		// tip any more: no point in waiting for it.
+		x.giveUp = func() bool {
+			n := 0
+			for _, ep := range e.Peers {
+				if ep.Plan.Class == clHonest || ep.Plan.Class == clSlow {
+					if _, banned := x.sight(ep.P.Addr); !banned {
+						return false
+					}
+					n++
+				}
+			}
+			return n > 0
 		}
 	}
 
@@ -1137,8 +1149,9 @@ func (x *enfRun) judge(f *enfEnd) {
 				map[string]any{"plan": plan, "end": f, "event_log_tail": w.Log.Tail(60)})
 		}
 	}
-	if !f.Synced && plan.Kind == kindCPOnly && len(res.Violations) > 0 {
-		// the stall is the other face of the violation reported above
+	if !f.Synced && len(res.Violations) > 0 {
+		// the stall is the other face of a violation reported above
+		res.Count("enf_scenarios_not_synced_with_violation", 1)
 	} else if !f.Synced {
 		res.Inconcl("client did not report the honest tip within the watchdog (C04's subject): " + plan.Kind)
 	} else {
